@@ -169,6 +169,13 @@ func (spyHarness) Gen(seed uint64, prop, tier string) *simkit.Program {
 			if stalled > 0 {
 				pubsInStall++
 			}
+			if r.P(0.15) && !(careful && stalled > 0) {
+				// the same signed VAA is gossiped again (guardians re-broadcast): a publication like any other
+				p.Steps = append(p.Steps, p.Steps[len(p.Steps)-1])
+				if stalled > 0 {
+					pubsInStall++
+				}
+			}
 		case 1:
 			add("sub", int64(r.Intn(128)), 0)
 		case 2:
@@ -270,20 +277,29 @@ func (h spyHarness) Exec(p *simkit.Program) *simkit.Result {
 						gi++
 					}
 				}
-				for k, e := range x.expected {
+				for k := 0; k < len(x.expected); {
+					// the same signed VAA may be published several times in a row (re-gossiped): such a
+					// run of equal publications is judged as a whole
+					e := x.expected[k]
+					j, maxC := k, 0
+					for j < len(x.expected) && string(x.expected[j]) == string(e) {
+						maxC += x.mult[j]
+						j++
+					}
 					c := 0
 					skipOptional()
 					for gi < len(got) && string(got[gi]) == string(e) {
 						gi++
 						c++
 					}
-					if c < 1 {
+					if c < j-k {
 						violate("matching-vaa-not-delivered", "subscriber %d (filters %v) did not receive matching VAA #%d (got %d of %d expected)", x.id, x.filters, k, len(got), len(x.expected))
 						return
 					}
-					if c > x.mult[k] {
+					if c > maxC {
 						violate("vaa-delivered-too-often", "subscriber %d received a VAA %d times", x.id, c)
 					}
+					k = j
 				}
 				skipOptional()
 				if gi != len(got) {
